@@ -422,6 +422,10 @@ var tailFixed = []string{
 	// variadic
 	"+space (defn f [n & r] (probe 1) (cond (== n 0) r (f (- n 1) n 7))) (f 0) (f 1) (f 2 5 5 5) (f 300)",
 	"+space (defn f [n & r] (probe 1) (cond (== n 0) r (f (- n 1)))) (f 0 1 2) (f 3 1 2) (f 300)",
+	// lazy parameters in the tail sequence (PushLazyArg): never forced / forced at the end / forced every iteration
+	"+space (defn lz [n #x] (probe 1) (cond (== n 0) 0 (lz (- n 1) (trace n)))) (lz 0 (trace 9)) (lz 3 (trace 9)) (lz 200 (trace 9))",
+	"+space (defn lz [n #x] (probe 1) (cond (== n 0) (force #x) (lz (- n 1) (+ n 100)))) (lz 0 (trace 9)) (lz 3 (trace 9)) (lz 200 (trace 9))",
+	"+space (defn lz [n a #x] (probe 1) (cond (== n 0) a (lz (- n 1) (+ a (force #x)) (trace n)))) (lz 0 0 (trace 9)) (lz 3 0 (trace 9)) (lz 50 0 (trace 9))",
 	// effects before the tail call, closures see per-iteration values of set locals
 	"+space (def g 0) (defn f [n] (probe 1) (set g (+ g n)) (cond (== n 0) g (f (- n 1)))) (f 0) (f 4) g (f 1000) g",
 }
@@ -509,7 +513,7 @@ func tailGen(g *Gen) {
 	nAcc, nDeep, nNon, nCol, nVar, nTr := 70, 4, 50, 16, 16, 30
 	if g.Thorough() {
 		deep = depthsTailThorough
-		nAcc, nDeep, nNon, nCol, nVar, nTr = 1500, 12, 800, 200, 200, 400
+		nAcc, nDeep, nNon, nCol, nVar, nTr = 1000, 10, 500, 120, 120, 250
 	}
 	// every tail context alone and every ordered pair of tail contexts, at moderate depths
 	for _, c := range tailCtxs {
